@@ -23,9 +23,10 @@ VARIABLES
   cur,        \* [1..k -> index value] as the open transaction sees the database
   committed,  \* as a new reader sees it
   caps,       \* ghost: capacities used since each forest was last wiped
-  ccaps
+  ccaps,
+  mapfull     \* this history runs under a deliberately small LMDB map: MapFull is an allowed fault
 
-tvars == <<l, cur, committed, caps, ccaps>>
+tvars == <<l, cur, committed, caps, ccaps, mapfull>>
 
 -----------------------------------------------------------------------------
 (* JSON -> values of Store.tla *)
@@ -111,7 +112,12 @@ Reset ==
      /\ committed' = cur'
      /\ caps' = [j \in DOMAIN e.idxs |-> {}]
      /\ ccaps' = caps'
+     /\ mapfull' = e.mapfull
   /\ l' = l + 1
+
+\* out of space is an environment fault (C10): the transaction is lost, nothing is claimed about
+\* its contents until the caller aborts; the error must be the MapFull class, never a panic.
+Faulted(e) == mapfull /\ e.res.c = "MapFull"
 
 AddLike(name) ==
   /\ IsEv(name)
@@ -131,10 +137,10 @@ AddLike(name) ==
             ELSE (IF e.res.c # "Ok" THEN {<<IF name = "Add" THEN "C05" ELSE "C19", "valid_write_rejected">>} ELSE {})
                  \cup (IF post # AddOp(pre, e.id, e.tok) THEN {<<"C05", "write_effect">>} ELSE {})
                  \cup (IF post.updated # pre.updated \cup {e.id} THEN {<<"C06", "write_not_marked">>} ELSE {}))
-     IN /\ Report("VIOL", e, bad)
+     IN /\ Report("VIOL", e, IF Faulted(e) THEN {} ELSE bad)
         /\ Bind(e, post)
   /\ l' = l + 1
-  /\ UNCHANGED <<committed, caps, ccaps>>
+  /\ UNCHANGED <<committed, caps, ccaps, mapfull>>
 
 Del ==
   /\ IsEv("Del")
@@ -149,10 +155,46 @@ Del ==
                     THEN {IF DelRet(pre, e.id) THEN <<"C05", "delete_effect">> ELSE <<"C19", "delete_of_absent_item_changed_database">>}
                     ELSE {})
               \cup (IF DelRet(pre, e.id) /\ e.id \notin post.updated THEN {<<"C06", "delete_not_marked">>} ELSE {}))
-     IN /\ Report("VIOL", e, bad)
+     IN /\ Report("VIOL", e, IF Faulted(e) THEN {} ELSE bad)
         /\ Bind(e, post)
   /\ l' = l + 1
-  /\ UNCHANGED <<committed, caps, ccaps>>
+  /\ UNCHANGED <<committed, caps, ccaps, mapfull>>
+
+RECURSIVE FoldAdd(_, _, _)
+FoldAdd(ix, items, k) == IF k > Len(items) THEN ix ELSE FoldAdd(AddOp(ix, items[k][1], items[k][2]), items, k + 1)
+RECURSIVE FoldDel(_, _, _)
+FoldDel(ix, dels, k) == IF k > Len(dels) THEN ix ELSE FoldDel(DelOp(ix, dels[k][1]), dels, k + 1)
+RECURSIVE DelRetsOk(_, _, _)
+DelRetsOk(ix, dels, k) ==
+  IF k > Len(dels) THEN TRUE
+  ELSE dels[k][2] = DelRet(ix, dels[k][1]) /\ DelRetsOk(DelOp(ix, dels[k][1]), dels, k + 1)
+
+AddMany ==
+  /\ IsEv("AddMany")
+  /\ LET e == Rec[l]
+         pre == cur[e.i]
+         post == JIndex(e.st)
+         bad == CommonDefects(e) \cup ObsDefects(e.obs, post) \cup
+                (IF e.res.c # "Ok" THEN {<<"C05", "valid_write_rejected">>} ELSE {}) \cup
+                (IF post # FoldAdd(pre, e.items, 1) THEN {<<"C05", "write_effect">>} ELSE {})
+     IN /\ Report("VIOL", e, IF Faulted(e) THEN {} ELSE bad)
+        /\ Bind(e, post)
+  /\ l' = l + 1
+  /\ UNCHANGED <<committed, caps, ccaps, mapfull>>
+
+DelMany ==
+  /\ IsEv("DelMany")
+  /\ LET e == Rec[l]
+         pre == cur[e.i]
+         post == JIndex(e.st)
+         bad == CommonDefects(e) \cup ObsDefects(e.obs, post) \cup
+                (IF e.res.c # "Ok" THEN {<<"C05", "delete_failed">>} ELSE {}) \cup
+                (IF ~DelRetsOk(pre, e.dels, 1) THEN {<<"C05", "delete_return_value">>} ELSE {}) \cup
+                (IF post # FoldDel(pre, e.dels, 1) THEN {<<"C05", "delete_effect">>} ELSE {})
+     IN /\ Report("VIOL", e, IF Faulted(e) THEN {} ELSE bad)
+        /\ Bind(e, post)
+  /\ l' = l + 1
+  /\ UNCHANGED <<committed, caps, ccaps, mapfull>>
 
 Clear ==
   /\ IsEv("Clear")
@@ -162,11 +204,11 @@ Clear ==
          bad == CommonDefects(e) \cup ObsDefects(e.obs, post) \cup
                 (IF e.res.c # "Ok" THEN {<<"C05", "clear_failed">>} ELSE {}) \cup
                 (IF post # ClearOp(pre) THEN {<<"C05", "clear_effect">>} ELSE {})
-     IN /\ Report("VIOL", e, bad)
+     IN /\ Report("VIOL", e, IF Faulted(e) THEN {} ELSE bad)
         /\ Bind(e, post)
         /\ caps' = [caps EXCEPT ![e.i] = {}]
   /\ l' = l + 1
-  /\ UNCHANGED <<committed, ccaps>>
+  /\ UNCHANGED <<committed, ccaps, mapfull>>
 
 ChangeMetric ==
   /\ IsEv("ChangeMetric")
@@ -182,11 +224,11 @@ ChangeMetric ==
                 (IF e.to # pre.metric /\ ~NeedBuildRes(post) THEN {<<"C18", "no_build_demanded">>} ELSE {}) \cup
                 (IF (\A x \in Live(pre) : pre.store[x] \in DOMAIN rq) /\ post # ChangeMetricOp(pre, e.to, rq)
                  THEN {<<"C18", IF e.to = pre.metric THEN "same_metric_changed_something" ELSE "vectors_not_requantised">>} ELSE {})
-     IN /\ Report("VIOL", e, bad)
+     IN /\ Report("VIOL", e, IF Faulted(e) THEN {} ELSE bad)
         /\ Bind(e, post)
         /\ caps' = IF e.to = pre.metric THEN caps ELSE [caps EXCEPT ![e.i] = {}]
   /\ l' = l + 1
-  /\ UNCHANGED <<committed, ccaps>>
+  /\ UNCHANGED <<committed, ccaps, mapfull>>
 
 Build ==
   /\ IsEv("Build")
@@ -201,21 +243,27 @@ Build ==
          faulted == e.args.cancel_at >= 0
          bad ==
            CommonDefects(e) \cup
-           (IF e.res.c = "Ok"
+           (IF e.fd_delta # 0 THEN {<<"C10", "file_descriptor_left_open">>} ELSE {}) \cup
+           (IF e.tmp_delta # 0 THEN {<<"C10", "temporary_file_left_behind">>} ELSE {}) \cup
+           (IF e.res.c = "Panic" /\ (faulted \/ ~e.tmp_usable \/ mapfull) THEN {<<"C10", "panic_under_fault">>} ELSE {}) \cup
+           (IF ~e.tmp_usable /\ n > cap /\ e.res.c # "Io" /\ ~(faulted /\ e.res.c = "Cancelled")
+            THEN {<<"C10", "unusable_temp_dir_gave_" \o e.res.c>>} ELSE {}) \cup
+           (IF e.res.c = "Io" /\ ~e.tmp_usable THEN {}
+            ELSE IF e.res.c = "Ok"
             THEN BuildOkDefects(pre, post, e.args.n_trees, cap, caps1 = {cap})
                  \cup ObsDefects(e.obs, post)
-                 \cup (IF post.meta # NoMeta /\ ~RoutedToSelf(nodesMs, post.meta.roots, LAMBDA p, x : SideLogged(ids, p, x))
+                 \cup (IF e.sides /\ post.meta # NoMeta /\ ~RoutedToSelf(nodesMs, post.meta.roots, LAMBDA p, x : SideLogged(ids, p, x))
                        THEN {<<"C04", "item_on_the_wrong_side_of_a_decided_plane">>} ELSE {})
                  \cup (IF faulted /\ e.polls > e.args.cancel_at + 1 THEN {<<"C10", "success_after_cancellation_was_seen_twice">>} ELSE {})
             ELSE IF faulted /\ e.res.c = "Cancelled" THEN {}
             ELSE  {<<"C14", "build_failed_" \o e.res.c>>, <<"C01", "build_failed_" \o e.res.c>>}
              \cup (IF faulted THEN {<<"C10", "cancelled_build_returned_" \o e.res.c>>} ELSE {})
              \cup (IF e.args.threads > 1 THEN {<<"C13", "build_failed_" \o e.res.c>>} ELSE {}))
-     IN /\ Report("VIOL", e, bad)
+     IN /\ Report("VIOL", e, IF Faulted(e) THEN {} ELSE bad)
         /\ Bind(e, post)
         /\ caps' = [caps EXCEPT ![e.i] = caps1]
   /\ l' = l + 1
-  /\ UNCHANGED <<committed, ccaps>>
+  /\ UNCHANGED <<committed, ccaps, mapfull>>
 
 SearchEv ==
   /\ IsEv("Search")
@@ -226,10 +274,10 @@ SearchEv ==
          nodesMs == JNodesMs(e.st.nodes)
          bad == CommonDefects(e) \cup Unchanged(e, pre, post, "C05")
                 \cup SearchDefects(e.q, post, nodesMs, LAMBDA p, x : SideLogged(ids, p, x))
-     IN /\ Report("VIOL", e, bad)
+     IN /\ Report("VIOL", e, IF Faulted(e) THEN {} ELSE bad)
         /\ Bind(e, post)
   /\ l' = l + 1
-  /\ UNCHANGED <<committed, caps, ccaps>>
+  /\ UNCHANGED <<committed, caps, ccaps, mapfull>>
 
 Commit ==
   /\ IsEv("Commit")
@@ -244,7 +292,7 @@ Commit ==
         /\ committed' = all
         /\ ccaps' = caps
   /\ l' = l + 1
-  /\ UNCHANGED <<caps>>
+  /\ UNCHANGED <<caps, mapfull>>
 
 Abort ==
   /\ IsEv("Abort")
@@ -257,16 +305,16 @@ Abort ==
         /\ cur' = all
         /\ caps' = ccaps
   /\ l' = l + 1
-  /\ UNCHANGED <<committed, ccaps>>
+  /\ UNCHANGED <<committed, ccaps, mapfull>>
 
 TraceInit ==
   /\ l = 1
-  /\ cur = <<>> /\ committed = <<>> /\ caps = <<>> /\ ccaps = <<>>
+  /\ cur = <<>> /\ committed = <<>> /\ caps = <<>> /\ ccaps = <<>> /\ mapfull = FALSE
 
 TraceNext ==
   \/ Reset
   \/ AddLike("Add") \/ AddLike("Append")
-  \/ Del \/ Clear \/ ChangeMetric \/ Build \/ SearchEv \/ Commit \/ Abort
+  \/ Del \/ AddMany \/ DelMany \/ Clear \/ ChangeMetric \/ Build \/ SearchEv \/ Commit \/ Abort
 
 TraceSpec == TraceInit /\ [][TraceNext]_tvars
 
